@@ -299,6 +299,11 @@ func valueLeavesOpt(v ssa.Value, chain []*ssa.Call, depth int, stopAtCells bool)
 				}
 			}
 		}
+		// a parameter of a function literal that is started / called right where it is written, with arguments (go func(ctx
+		// context.Context, src Stream[T], items chan<- T) {...}(bgCtx, s, c)): the argument
+		if a := literalCallArg(x); a != nil {
+			return valueLeavesOpt(a, nil, depth+1, stopAtCells)
+		}
 		// a parameter of a function literal that is handed to an in-package helper which calls it (c.with(func(cur …) {…})):
 		// the values the helper passes at that position
 		if ls := closureParamLeaves(x, depth); ls != nil {
@@ -485,4 +490,47 @@ func closureCallSites(lit *ssa.Function) []closureCallSite {
 		}
 	})
 	return out
+}
+
+
+// literalCallArg: p is a parameter of a function literal whose only use is one go / call / defer statement of its enclosing
+// function that passes arguments: the argument for p (a value of the enclosing function), else nil.
+func literalCallArg(p *ssa.Parameter) ssa.Value {
+	lit := p.Parent()
+	if lit == nil || lit.Parent() == nil {
+		return nil
+	}
+	k := -1
+	for i, q := range lit.Params {
+		if q == p {
+			k = i
+		}
+	}
+	if k < 0 {
+		return nil
+	}
+	var arg ssa.Value
+	n := 0
+	instrs(lit.Parent(), func(_ *ssa.BasicBlock, _ int, in ssa.Instruction) {
+		cc := callCommon(in)
+		if cc == nil || cc.IsInvoke() {
+			return
+		}
+		var f *ssa.Function
+		switch v := cc.Value.(type) {
+		case *ssa.MakeClosure:
+			f, _ = v.Fn.(*ssa.Function)
+		case *ssa.Function:
+			f = v
+		}
+		if f != lit || k >= len(cc.Args) {
+			return
+		}
+		n++
+		arg = cc.Args[k]
+	})
+	if n != 1 {
+		return nil
+	}
+	return arg
 }
